@@ -33,7 +33,37 @@ def eval3(e: ast.expr, atom: Callable[[ast.expr], Optional[str]], env: dict[str,
         return eval3(e.value, atom, env)
     if isinstance(e, ast.Constant):
         return bool(e.value)
+    if isinstance(e, ast.Call) and isinstance(e.func, ast.Name) and e.func.id == "bool" and len(e.args) == 1:
+        return eval3(e.args[0], atom, env)
+    if isinstance(e, ast.Compare) and len(e.ops) == 1 and isinstance(e.ops[0], (ast.Eq, ast.NotEq, ast.Is, ast.IsNot)):
+        # comparison of two truth values (e.g. `bool(a) != bool(b)`, `(x == 'p') == wanted`): only when both sides are
+        # boolean-valued expressions, so that truthiness and value coincide
+        l, r_ = e.left, e.comparators[0]
+        if _boolean_valued(l, atom) and _boolean_valued(r_, atom):
+            a, b = eval3(l, atom, env), eval3(r_, atom, env)
+            if a is None or b is None:
+                return None
+            return (a == b) if isinstance(e.ops[0], (ast.Eq, ast.Is)) else (a != b)
     return None
+
+
+def _boolean_valued(e: ast.expr, atom) -> bool:
+    """The expression's value is a bool (not merely truthy/falsy)."""
+    if isinstance(e, ast.Constant):
+        return isinstance(e.value, bool)
+    if isinstance(e, ast.UnaryOp) and isinstance(e.op, ast.Not):
+        return True
+    if isinstance(e, ast.Compare):
+        return True
+    if isinstance(e, ast.Call) and isinstance(e.func, ast.Name) and e.func.id in ("bool", "any", "all", "isinstance"):
+        return True
+    if isinstance(e, ast.Name):
+        a = atom(e)
+        if isinstance(a, ast.AST):
+            return _boolean_valued(a, atom)
+    if isinstance(e, ast.BoolOp):
+        return all(_boolean_valued(v, atom) for v in e.values)
+    return False
 
 
 def consistent_assignments(facts, atom: Callable[[ast.expr], Optional[str]], names: list[str]) -> list[dict[str, bool]]:
